@@ -490,6 +490,7 @@ class Facts:
                 f_['crate'] = cr
                 self.fns[strip_generics(f_['def'])] = f_
         self._children = None
+        self.pristine = {}
         if self.new_fns:
             self._inline_new_helpers()
 
@@ -498,6 +499,7 @@ class Facts:
         rules written against one body keep seeing the whole mechanism"""
         import inline
         new = set(self.new_fns)
+        self.pristine = {}
         for defp, b in list(self.bodies.items()):
             if b.d['promoted']:
                 continue
@@ -511,6 +513,7 @@ class Facts:
                     nb = inline.inline_calls(self, nb, should_inline=lambda cal, t, depth: cal.name in new, max_depth=4)
             except Exception:
                 continue
+            self.pristine[defp] = b        # the interpreters follow calls themselves and want the body as written
             self.bodies[defp] = nb
             lst = self.by_name.get(b.name, [])
             self.by_name[b.name] = [nb if x is b else x for x in lst]
